@@ -42,9 +42,10 @@ def r1(ctx):
         match(core(q[2]), Call('char::methods::is_whitespace', _ITEM))
     ctx.require(ok, uw, 'unicode-predicate', 'unicode::is_whitespace(s) = s.chars().all(char::is_whitespace)',
                 'unicode::is_whitespace is %s' % [show_in(uw, v) for v, _ in rv])
+    from rules.common import closures_in
     for fn in ('text::clean', 'text::word_boundaries'):
         b = ctx.body(fn)
-        ws = [t for t in b.calls(r'is_whitespace$|is_ascii_whitespace$')]
+        ws = [t for x in [b] + closures_in(ctx, b) for t in x.calls(r'is_whitespace$|is_ascii_whitespace$')]
         bad = [t for t in ws if (t.callee_res() or '') != WS]
         ctx.require(bool(ws) and not bad, b, 'predicate|' + fn.rsplit('::', 1)[-1], '%s decides with Character::is_whitespace' % fn,
                     '%s uses %s' % (fn, [t.callee_res() for t in bad] or 'no whitespace predicate'))
@@ -154,7 +155,7 @@ def r3(ctx):
                 inner = sg.inner
                 seps = [x for x in inner if x.kind == 'one' and core(x.elem)[0] == 'const']
                 els = [x for x in inner if x.kind == 'one' and isel(x.elem) and not x.conds]
-                ok = len(inner) == 2 and len(seps) == 1 and len(els) == 1 and inner.index(seps[0]) < inner.index(els[0]) and sep != ''
+                ok = len(inner) == 2 and len(seps) == 1 and len(els) == 1 and inner.index(seps[0]) < inner.index(els[0])
                 if ok:
                     cv = core(seps[0].elem)
                     ok = (cv[2] == ord(sep) if len(cv) > 2 and isinstance(cv[2], int) else const_str(seps[0].elem) == sep)
